@@ -18,6 +18,7 @@ package converter
 //@   ensures [C20] #unlikely-role-skipped implies(old(dc.hasFlag(SkipUnlikelies) && inmap(unlikelyRoles, dom.GetAttribute(node, "role"))), !result && builderUntouched())
 //@   ensures [C07] #start-tag-for-nestable implies(result && old(isNestTag(dom.TagName(node))), exists(k, old(len(elemsOf(dc))) <= k && k < len(elemsOf(dc)), isTagElem(elemsOf(dc)[k], old(dom.TagName(node)), webdoc.TagStart)))
 //@   ensures [C07] #no-tag-otherwise implies(!result || !old(isNestTag(dom.TagName(node))), forall(k, old(len(elemsOf(dc))) <= k && k < len(elemsOf(dc)), !typeis(elemsOf(dc)[k], *webdoc.Tag)))
+//@   ensures [C02] #media-is-not-walked implies(exists(k, old(len(elemsOf(dc))) <= k && k < len(elemsOf(dc)), !typeis(elemsOf(dc)[k], *webdoc.Text) && !typeis(elemsOf(dc)[k], *webdoc.Tag)), !result)
 //@   ensures [C03,C07] #descend-iff-started len(as(dc.builder, *webdoc.WebDocumentBuilder).actionStack) == old(len(as(dc.builder, *webdoc.WebDocumentBuilder).actionStack)) + ite(result, 1, 0)
 //@   loop 0 invariant wfConv(dc) && node.Type == 3 && (node.Parent == nil || node.Parent.Type == 3) && inheap(node)
 //@   loop 0 invariant builderUntouched()
